@@ -12,7 +12,7 @@ if [ ! -d $WT ]; then git -C /repo worktree add -q --detach $WT HEAD; fi
 cd $WT && git checkout -q --detach $(git -C /repo rev-parse HEAD) && git checkout -- . && git clean -fdq -e target
 META=$D/demo_where.txt   # line 1: target file (relative to repo) ; line 2: mode append|new ; line 3: cargo test args
 TARGET=$(sed -n 1p $META); MODE=$(sed -n 2p $META); ARGS=$(sed -n 3p $META)
-place_demo() { if [ "$MODE" = append ]; then cat $D/demo.rs >> $WT/$TARGET; else cp $D/demo.rs $WT/$TARGET; fi; }
+place_demo() { mkdir -p $(dirname $WT/$TARGET); if [ "$MODE" = append ]; then cat $D/demo.rs >> $WT/$TARGET; else cp $D/demo.rs $WT/$TARGET; fi; }
 OUT=$D/validation.txt; : > $OUT
 echo "== demo on unmodified tree" >> $OUT
 place_demo
